@@ -756,6 +756,9 @@ where
         sum_a += a;
         a
     });
+    if sum_a == V::zero() {
+        return None;
+    }
     for y in U::indexes() {
         ay[y] /= sum_a;
     }
